@@ -163,8 +163,13 @@ func childMain(args []string) {
 			if !o.OK() {
 				class = "panic"
 			}
+			if strings.HasPrefix(o.Panic, hangMarker) {
+				class = "hang"
+			}
 			site := "-"
-			if alloc > k*int64(len(b))+c {
+			if class == "hang" {
+				site = strings.ReplaceAll(strings.TrimPrefix(o.Panic, hangMarker), " ", "")
+			} else if alloc > k*int64(len(b))+c {
 				site = topAllocSite()
 			}
 			fmt.Fprintf(out, "E %s %s %d %s %d\n", f[0], class, alloc, site, avail)
